@@ -95,6 +95,9 @@ func ParseWriteMultipleRegistersRequestTCP(data []byte) (*WriteMultipleRegisters
 	if err != nil {
 		return nil, err
 	}
+	if tooShort := checkTCPRequestLength(header, data, FunctionWriteMultipleRegisters, 13); tooShort != nil {
+		return nil, tooShort
+	}
 	unitID := data[6]
 	if data[7] != FunctionWriteMultipleRegisters {
 		tmpErr := NewErrorParseTCP(ErrIllegalFunction, "received function code in packet is not 0x10")
